@@ -146,6 +146,10 @@ func GenRecord(r *rng.Rand, n *spec.Node, validPct int, o FrontOpts) any {
 		return GenRecord(r, n.Elem, validPct, o)
 	}
 	c := r.Intn(100)
+	if n.Kind == spec.String && len(n.Tests) == 0 && r.Intn(6) == 0 {
+		// text that looks like syntax of some source: quotes, escapes, separators
+		return []string{`"quoted"`, `""`, `'single'`, `a=b&c`, `x;y`, `100%`, `a+b`, `C:\dir`, `{"j":1}`, `[1]`, `$HOME`, `#frag`}[r.Intn(12)]
+	}
 	if c < validPct {
 		return recLeaf(n, n.Witness)
 	}
